@@ -18,10 +18,12 @@ def configs(ctx):
     return c
 
 def bounds(ctx):
+    import c04, c05, c08
     b = [("misc", mcprogs.misc()), ("lost-update", mcprogs.chain(mcprogs.lost_update(2, False), mcprogs.lost_update(2, True))),
-         ("mutex", mcprogs.family("c04", ["plain-A2K3"])), ("sem", mcprogs.family("c05", ["c0-A2K2-acqt"]))]
+         ("mutex-A2K2", c04.gen([0], 2, 2)), ("sem-A2K2", c05.gen([0], 2, 2, ops=("acq", "rel"))), ("mbox-A2K1", c08.gen(("put", "get", "PA", "GA", "det"), 1, 2, 1))]
     if not ctx.quick:
-        b += [("mutex-rec", mcprogs.family("c04", ["rec-A2K3"])), ("mbox", mcprogs.family("c08", ["basic-A2K2"])), ("condvar", mcprogs.family("c06", ["A2K2"])),
+        b += [("mutex", mcprogs.family("c04", ["plain-A2K3"])), ("sem", mcprogs.family("c05", ["c0-A2K2-acqt"])),
+              ("mutex-rec", mcprogs.family("c04", ["rec-A2K3"])), ("mbox", mcprogs.family("c08", ["basic-A2K2"])), ("condvar", mcprogs.family("c06", ["A2K2"])),
               ("barrier", mcprogs.family("c07", ["n2-A1to4"])), ("mutex3", mcprogs.family("c04", ["plain-A3K2"])), ("mbox-any", mcprogs.family("c08", ["any-A2K2"]))]
     return b
 
@@ -30,8 +32,7 @@ UDPOR_OK = ("lock", "unlock", "acq", "rel", "put", "get", "puta", "geta", "wait"
 def key_of(kind, cfg, prog):
     """case key = violated clause + checker configuration (seed dropped) + the kinds of operations the program uses"""
     import re
-    ops = sorted(set(op[0] for a in prog["actors"] + prog.get("templates", []) for op in a) - {"rd", "wr", "set", "logv", "assert"})
-    return "C38 %s cfg=%s ops=%s" % (kind, re.sub(r"uniform\d+", "uniform", cfg), "+".join(ops))
+    return "C38 %s cfg=%s uses=%s" % (kind, re.sub(r"uniform\d+", "uniform", cfg), mcprogs.features(prog))
 
 def _job(item):
     """one program under every configuration"""
@@ -66,7 +67,8 @@ def _job(item):
             out["problems"].append((name, "assertion-verdict", "checker %s an assertion failure, reference says one is %s" % ("reports" if rep_as else "does not report", "reachable" if ref_as else "unreachable")))
         if not name.startswith("udpor"):
             got = set(c for c in r["terminals"] if "ASSERTFAIL" not in c)
-            if got != ref_ok:
+            # a checker may stop at its first report: on failing programs only soundness (no unknown outcome) is required
+            if (got - ref_ok) if failing else (got != ref_ok):
                 miss, extra = sorted(ref_ok - got), sorted(got - ref_ok)
                 out["problems"].append((name, "terminal-outcomes", "missed %d of %d reference outcomes, %d unknown outcomes; first missed: %s; first unknown: %s" % (
                     len(miss), len(ref_ok), len(extra), miss[:1], extra[:1])))
@@ -127,18 +129,22 @@ def run(ctx):
     cov = dict(evaluations=tot["runs"], distinct_nontrivial=tot["failing_programs"], programs=tot["programs"],
                rule="every program of the bound x every configuration (reduction x explorer x strategy/seed) = one complete run of simgrid-mc, its visited terminal states "
                     "(H1 hook) and verdict compared with the reference semantics; non-trivial = programs with a reachable deadlock or assertion failure",
-               configurations=len(cfgs), runs_too_slow_to_conclude=tot.get("inconclusive", 0), reference_terminal_states=tot["ref_terminals"], bounds_completed=completed, samples=samples, exhaustive=exhaustive,
+               configurations=len(cfgs), unreproducible_dropped=len(dropped), runs_too_slow_to_conclude=tot.get("inconclusive", 0), reference_terminal_states=tot["ref_terminals"], bounds_completed=completed, samples=samples, exhaustive=exhaustive,
                states=tot["ref_terminals"], transitions=tot["runs"], traces_validated_against_impl=tot["programs"])
     common.finish(ctx, "model_checking", cov,
                   ["ground truth = reference semantics lib/rs.py, itself bound to the kernel by the conformance walk of C04-C09 (programs on which kernel and reference disagree are skipped here)",
                    "udpor is compared on verdicts only (it does not run executions to their end) and only on its supported sub-alphabet",
                    "the 'parallel' explorer is documented as work in progress and is not checked"], violations, engine="E3 smc + E2 rs")
 
+dropped = []
+
 def _confirm(violations, binary):
     """re-run each failing (program, configuration) alone twice; verdicts must be identical"""
     out = []
+    global dropped
+    dropped = []
     d = common.tmpdir("c38c")
-    for v in violations[:30]:
+    for v in violations[:60]:
         pf = os.path.join(d, "p.txt"); open(pf, "w").write(vxlib.prog_text("x", v.case["program"]))
         again = [_job(("x", v.case["program"], 0, pf, [(v.case["config_name"], v.case["config"])], binary, d)) for _ in range(2)]
         kinds = [sorted(k for _, k, _ in a["problems"]) for a in again]
@@ -146,12 +152,11 @@ def _confirm(violations, binary):
             if again[0].get("inconclusive") or again[1].get("inconclusive"):
                 continue
             common.log("C38: violation did not reproduce identically: %s -> %s" % (v.key, kinds))
-            if "uniform" in v.case["config_name"] or v.case["kind"] == "hang":
-                continue  # load-dependent: not reported
-            raise SystemExit(2)
+            dropped.append(v.key)   # a verdict of an external process that does not repeat is not reported (counted in the evidence)
+            continue
         out.append(v)
     shutil.rmtree(d, ignore_errors=True)
-    return out + violations[30:]
+    return out + violations[60:]
 
 def replay(ctx, case):
     c = case["case"]; binary = vxlib.vx_binary(); d = common.tmpdir("c38r")
